@@ -1055,7 +1055,10 @@ fn c18(r: &mut Rng, i: u64, p: &HashMap<String, String>) -> Vec<Value> {
     let on = cfg(deco, vec![json!(["doccss"])]);
     let off = cfg(deco, vec![]);
     vec![json!({"id": id("c18", i), "meta": {"css": {"agent": [], "user": [], "author": author}},
-                "runs": [run(&h1, w, on.clone(), route), run(&h2, w, on, route), run(&h1, w, off.clone(), route), run(&h3, w, off, route)]})]
+                "runs": [run(&h1, w, on.clone(), route), run(&h2, w, on, route), run(&h1, w, off.clone(), route), run(&h3, w, off.clone(), route),
+                         // the document without its hidden subtrees has nothing left for its sheets to select: rendered with
+                         // document CSS off it is the reference for the elements that are *not* hidden
+                         run(&h2, w, off, route)]})]
 }
 
 /// C17: (total) any string to add_css; (inert) malformed CSS inside a document; (variant) a valid sheet
